@@ -205,6 +205,17 @@ func crashSignature(out string) string {
 	kind := "panic"
 	seg := out[i:]
 	first := strings.SplitN(seg, "\n", 2)[0]
+	if strings.Contains(first, "harness:") {
+		return "" // the harness's own assertion: never attributed to the repository
+	}
+	// only the goroutine that died counts: the dump of all other goroutines follows after the next blank line +
+	// "goroutine N [...]" header and always contains repository frames of bystanders
+	if g := strings.Index(seg, "\ngoroutine "); g >= 0 {
+		rest := seg[g+1:]
+		if e := strings.Index(rest, "\n\ngoroutine "); e >= 0 {
+			seg = seg[:g+1+e]
+		}
+	}
 	switch {
 	case strings.Contains(first, "nil pointer"):
 		kind = "nil-deref"
